@@ -48,7 +48,8 @@ impl Model for AG {
                     .with_agenda_group(r.2.to_string())
                     .with_no_loop(r.4)
                     .with_lock_on_active(r.5)
-                    .with_auto_focus(r.6);
+                    .with_auto_focus(r.6)
+                    .with_condition_count(l["cc"].as_u64().unwrap_or(1) as usize);
                 if r.3 != "none" {
                     act = act.with_activation_group(r.3.to_string());
                 }
